@@ -66,7 +66,8 @@ pub enum Delivery {
     Reconnecting { account: bool, ex: u8 },
     /// the selected message's content arrives in a form that is not the item's own report kind: a
     /// full L2 book snapshot whose top is the selected L1 message, or an order report in the
-    /// cancel-in-flight state wrapping the selected open report. Such a message may or may not be
+    /// cancel-in-flight state wrapping the selected open report, or a public trade stamped like the
+    /// selected trade whose price is not a number / outside the decimal range. Such a message may or may not be
     /// taken as news for the item, but it must never roll the item back.
     Indirect(u16),
 }
@@ -255,6 +256,7 @@ impl Check for MaxTimestampWins {
         let (mut stale, mut dup, mut equal_ts, mut packed) = (0u32, 0u32, 0u32, 0u32);
         let (mut cancels, mut reconnects, mut stale_after_cancel, mut stale_after_reconnect) = (0u32, 0u32, 0u32, 0u32);
         let mut indirect = 0u32;
+        let mut unpriceable = 0u32;
 
         for (n, del) in case.deliveries.iter().enumerate() {
             // build the engine-level events for this delivery
@@ -305,6 +307,15 @@ impl Check for MaxTimestampWins {
                                 o.state = OrderState::active(barter_execution::order::state::CancelInFlight { order: Some(open) });
                             }
                             Some(AccountEvent { exchange: w.exchange_of(m.key), kind: AccountEventKind::OrderSnapshot(Snapshot(o)) }.into())
+                        }
+                        // a print whose price cannot be held (not a number / beyond the decimal range)
+                        Key::Trade { .. } => {
+                            let mut me = w.market(&m);
+                            if let DataKind::Trade(trade) = &mut me.kind {
+                                trade.price = [f64::NAN, f64::INFINITY, 1e30, -1e30][m.v as usize % 4];
+                            }
+                            unpriceable += 1;
+                            Some(me.into())
                         }
                         _ => None,
                     };
@@ -459,6 +470,7 @@ impl Check for MaxTimestampWins {
         rep.class_if(packed > 0, "packed_account_snapshot");
         rep.class_if(stale_after_cancel > 0, "stale_order_report_after_cancel_request");
         rep.class_if(indirect > 0, "content_arrives_as_l2_snapshot_or_cancel_in_flight_report");
+        rep.class_if(unpriceable > 0, "trade_print_with_a_price_that_cannot_be_held");
         rep.class_if(stale_after_reconnect > 0, "stale_delivery_after_reconnect_notice");
         rep.nontrivial = stale > 0 && dup > 0 && equal_ts > 0;
         rep
